@@ -39,6 +39,7 @@ class TraceRun:
         self.exc_plan_line = None
         self.exc_lib_frames = []
         self.calls = {}
+        self.region_vars = {}
         self.outcome = None        # "completed" | "raised:<cls>"
         self.outcome_msg = ""
         self.steps = 0
@@ -169,6 +170,11 @@ class TraceRun:
             raise W.InjectedFault("injected fault at statement site %d" % site)
         self.check_point(site, loc, model, info)
         self.marks.append((site, len(self.w.rec.events)))
+        if model and info.get("var") and info.get("rstack"):
+            v = loc.get(info["var"])
+            lc = self.w.lc_of(v)
+            if lc is not None:
+                self.region_vars[(info["var"], tuple(info["rstack"]))] = (lc.value, W.canon_lc(lc.lc.lc, self.w.rec.p))
         if self.want_snapshots:
             self.snapshots.append((site, {nm: snapshot_values(v, self.w.lc_of) for nm, v in loc.items()
                                           if nm[:2] in ("vI", "vB", "vA") and nm[2:].isdigit()}))
